@@ -213,9 +213,20 @@ theorem encodeWvInt_safe (s : Bytes) : Safe (encodeWvInt s) := by
 
 theorem wvDateOpaque_safe (s : Bytes) : Safe (Typed.wvDateOpaque s) := by
   unfold Typed.wvDateOpaque
-  simp only []
-  repeat' split
-  all_goals simp_all [Safe]
+  extract_lets len0 tmp len zr
+  split
+  · simp [Safe]
+  · split
+    · simp [Safe]
+    · have hzr : Safe zr := by
+        unfold zr
+        (repeat' split) <;> simp [Safe]
+      cases hz : zr with
+      | error e => rw [hz] at hzr; cases e <;> simp_all [Safe]
+      | ok p =>
+        obtain ⟨zone, t1⟩ := p
+        simp only
+        (repeat' split) <;> simp [Safe]
 
 theorem encodeWvDate_safe (s : Bytes) (hs : s ≠ []) : Safe (encodeWvDate s) := by
   unfold encodeWvDate
@@ -224,5 +235,446 @@ theorem encodeWvDate_safe (s : Bytes) (hs : s ≠ []) : Safe (encodeWvDate s) :=
   · simp [Safe]
   · exact wvDateOpaque_safe s
 
+
+/-! ### Values -/
+
+theorem otaIconW_ok (na : Option (List Attr)) (s : Bytes) (st : WSt) :
+    Ok (fun r => ∀ st', r = some st' → st'.strtbl = st.strtbl) (otaIconW na s st) := by
+  unfold otaIconW
+  split
+  · split
+    · bind_ok (b64DecodeE_safe s) with d _
+      simp only [Ok_pure]
+      intro st' h; cases h; rfl
+    · simp
+  · simp
+
+theorem attrSpecialW_ok (c : WCfg) (na : Option (List Attr)) (s : Bytes) (st : WSt)
+    (hota : c.lang.id = 1901 → st.curAttr ≠ none) :
+    Ok (fun r => ∀ st', r = some st' → st'.strtbl = st.strtbl) (attrSpecialW c na s st) := by
+  unfold attrSpecialW
+  split
+  · split
+    · simp
+    · split
+      · bind_ok (encodeDatetime_safe s) with d _
+        simp only [Ok_pure]
+        intro st' h; cases h; rfl
+      · simp
+  · split
+    · split
+      · simp
+      · split
+        · bind_ok (encodeDatetime_safe s) with d _
+          simp only [Ok_pure]
+          intro st' h; cases h; rfl
+        · simp
+    · split
+      · rename_i h1901
+        have : c.lang.id = 1901 := by simpa using h1901
+        split
+        · rename_i hnone; exact absurd hnone (hota this)
+        · split
+          · exact otaIconW_ok na s st
+          · simp
+      · simp
+
+theorem encAttrValueW_ok (c : WCfg) (hc : CfgOk c) (na : Option (List Attr)) (s : Bytes) (st : WSt)
+    (hst : StOk st) (hota : c.lang.id = 1901 → st.curAttr ≠ none) :
+    Ok (fun st' => st'.strtbl = st.strtbl) (encAttrValueW c na s st) := by
+  unfold encAttrValueW
+  split
+  · simp
+  · bind_ok (attrSpecialW_ok c na s st hota) with r hr
+    cases r with
+    | some st' => simp only [Ok_pure]; exact hr st' rfl
+    | none =>
+      simp only
+      have h1 : Safe (match c.lang.values with
+          | some vals => splitByValues vals [VElt.str s]
+          | none => pure [VElt.str s]) := by
+        split
+        · rename_i vals hv
+          exact splitByValues_ok vals _ (fun r hr => langNames_values hc.names hv hr)
+        · simp [Safe]
+      bind_ok h1 with l _
+      have h2 : Safe (if c.useStrtbl then splitByStrtbl st.strtbl l else pure l) := by
+        split
+        · exact splitByStrtbl_ok _ _ (fun e he => (hst e he).2)
+        · simp [Safe]
+      bind_ok h2 with l2 _
+      simp
+
+theorem wvContentW_ok (c : WCfg) (s : Bytes) (hs : s ≠ []) (st : WSt) :
+    Ok (fun r => ∀ st', r = some st' → st'.strtbl = st.strtbl) (wvContentW c s st) := by
+  unfold wvContentW
+  simp only
+  split
+  · bind_ok (encodeWvInt_safe s) with r _
+    cases r with
+    | some item => simp only [Ok_pure]; intro st' h; cases h; rfl
+    | none => simp
+  · bind_ok (encodeWvDate_safe s hs) with item _
+    simp only [Ok_pure]; intro st' h; cases h; rfl
+  · split
+    · simp
+    · split
+      · simp only [Ok_pure]; intro st' h; cases h; rfl
+      · simp
+
+theorem drmrelContentW_ok (parent : Option Name) (s : Bytes) (st : WSt) :
+    Ok (fun r => ∀ st', r = some st' → st'.strtbl = st.strtbl) (drmrelContentW parent s st) := by
+  unfold drmrelContentW
+  split
+  · split
+    · bind_ok (b64DecodeE_safe s) with d _
+      simp only [Ok_pure]; intro st' h; cases h; rfl
+    · simp
+  · simp
+
+theorem encContentValueW_ok (c : WCfg) (parent : Option Name) (s : Bytes) (st : WSt) (hst : StOk st) :
+    Ok (fun st' => st'.strtbl = st.strtbl) (encContentValueW c parent s st) := by
+  unfold encContentValueW
+  split
+  · simp
+  · rename_i hs
+    have hs' : s ≠ [] := by intro e; simp [e] at hs
+    have h1 : Ok (fun r => ∀ st', r = some st' → st'.strtbl = st.strtbl)
+        (if isWv c.lang.id then wvContentW c s st else pure none) := by
+      split
+      · exact wvContentW_ok c s hs' st
+      · simp
+    bind_ok h1 with r1 hr1
+    cases r1 with
+    | some st' => simp only [Ok_pure]; exact hr1 st' rfl
+    | none =>
+      simp only
+      have h2 : Ok (fun r => ∀ st', r = some st' → st'.strtbl = st.strtbl)
+          (if c.lang.id == 1801 then drmrelContentW parent s st else pure none) := by
+        split
+        · exact drmrelContentW_ok parent s st
+        · simp
+      bind_ok h2 with r2 hr2
+      cases r2 with
+      | some st' => simp only [Ok_pure]; exact hr2 st' rfl
+      | none =>
+        simp only
+        have h3 : ∀ l, Safe (if c.useStrtbl then splitByStrtbl st.strtbl l else pure l) := by
+          intro l
+          split
+          · exact splitByStrtbl_ok _ _ (fun e he => (hst e he).2)
+          · simp [Safe]
+        bind_ok (h3 _) with l2 _
+        simp
+
+/-! ### Attributes -/
+
+theorem encAttrGo_comp (name value : Bytes) : ∀ (rows : List AttrRow) (sc : AttrScan), sc.comp ≤ value.length →
+    ∀ r n, encAttrGo name value rows sc = some (r, n) → n ≤ value.length
+  | [], sc, h, r, n, he => by
+    simp only [encAttrGo, Option.map_eq_some_iff, Prod.mk.injEq] at he
+    obtain ⟨_, _, _, rfl⟩ := he
+    exact h
+  | row :: rows, sc, h, r, n, he => by
+    unfold encAttrGo at he
+    split at he
+    · split at he
+      · exact encAttrGo_comp name value rows _ (by split <;> exact h) r n he
+      · split at he
+        · simp only [Option.some.injEq, Prod.mk.injEq] at he
+          omega
+        · split at he
+          · rename_i v _ _ hc
+            simp only [Bool.and_eq_true, decide_eq_true_eq] at hc
+            exact encAttrGo_comp name value rows _ (by simp only; omega) r n he
+          · exact encAttrGo_comp name value rows sc h r n he
+    · exact encAttrGo_comp name value rows sc h r n he
+
+theorem attrLookup_part_le (lang : Lang) (name v : Bytes) (r : AttrRow) (comp : Nat)
+    (h : attrLookup lang name v = .part r comp) : comp ≤ v.length := by
+  unfold attrLookup at h
+  cases ha : lang.attrs with
+  | none => simp [ha] at h
+  | some attrs =>
+    simp only [ha] at h
+    cases he : encAttr attrs name v with
+    | none => simp [he] at h
+    | some p =>
+      obtain ⟨r', n⟩ := p
+      simp only [he] at h
+      split at h
+      · cases h
+      · cases h; exact encAttrGo_comp name v attrs {} (Nat.zero_le _) _ _ he
+
+theorem attrLiteralW_ok (c : WCfg) (name : Bytes) (hn : name ≠ []) (st : WSt) (hst : StOk st) :
+    Ok (fun st' => StOk st' ∧ c.useStrtbl = true ∧ st'.curAttr = st.curAttr) (attrLiteralW c name st) := by
+  unfold attrLiteralW
+  split
+  · simp
+  · rename_i hu
+    simp only [Ok_pure]
+    refine ⟨?_, by simpa using hu, ?_⟩
+    · exact (strtblAdd_ok st name hn hst).of_eq rfl
+    · simp only [emit_curAttr]
+      unfold strtblAdd; split <;> rfl
+
+theorem ptrAdd_safe (what : String) (s : Bytes) (n : Nat) (h : n ≤ s.length) : Safe (ptrAdd what s n) := by
+  simp [ptrAdd, h, Safe]
+
+theorem attrStartW_ok (c : WCfg) (hc : CfgOk c) (a : Attr) (ha : anameOk a.name = true) (v : Bytes) (st : WSt)
+    (hst : StOk st) :
+    Ok (fun r => StOk r.2 ∧ (c.lang.id = 1901 → r.1.isSome → r.2.curAttr ≠ none)) (attrStartW c a v st) := by
+  unfold attrStartW
+  split
+  · rename_i r hname
+    have hrn : r.name ≠ [] := by
+      rw [hname] at ha
+      intro e; simp [anameOk, e] at ha
+    simp only
+    split
+    · simp only [Ok_pure]
+      exact ⟨hst.of_eq (by simp), fun _ _ => by simp⟩
+    · rename_i p _
+      split
+      · rename_i hpre
+        split
+        · have hle : p.length ≤ v.length := (List.isPrefixOf_iff_prefix.mp hpre).length_le
+          bind_ok (ptrAdd_safe _ v p.length hle) with rest _
+          simp only [Ok_pure]
+          exact ⟨hst.of_eq (by simp), fun _ _ => by simp⟩
+        · simp only [Ok_pure]
+          exact ⟨hst.of_eq (by simp), fun _ h => by simp at h⟩
+      · bind_ok (attrLiteralW_ok c r.name hrn _ (hst.of_eq rfl)) with st' hst'
+        simp only [Ok_pure]
+        refine ⟨hst'.1, fun h1901 _ => ?_⟩
+        have := hc.ota h1901
+        rw [hst'.2.1] at this
+        cases this
+  · rename_i sname hname
+    have hsn : cstrOf sname ≠ [] := by
+      rw [hname] at ha
+      intro e; simp [anameOk, e] at ha
+    simp only
+    split
+    · bind_ok (attrLiteralW_ok c (cstrOf sname) hsn _ (hst.of_eq rfl)) with st' hst'
+      simp only [Ok_pure]
+      refine ⟨hst'.1, fun h1901 _ => ?_⟩
+      have := hc.ota h1901
+      rw [hst'.2.1] at this
+      cases this
+    · simp only [Ok_pure]
+      exact ⟨hst.of_eq (by simp), fun _ h => by simp at h⟩
+    · rename_i r comp hhit
+      have hle : comp ≤ v.length := by
+        split at hhit
+        · cases hhit
+        · exact attrLookup_part_le _ _ _ _ _ hhit
+      bind_ok (ptrAdd_safe _ v comp hle) with rest _
+      simp only [Ok_pure]
+      exact ⟨hst.of_eq (by simp), fun _ _ => by simp⟩
+
+theorem encAttrW_ok (c : WCfg) (hc : CfgOk c) (na : Option (List Attr)) (a : Attr) (ha : anameOk a.name = true)
+    (st : WSt) (hst : StOk st) : Ok StOk (encAttrW c na a st) := by
+  unfold encAttrW
+  split
+  · simpa using hst
+  · bind_ok (attrStartW_ok c hc a ha (cstrOf a.value) st hst) with ⟨rest, st1⟩ h1
+    cases rest with
+    | none =>
+      simp only [pure_bind, Ok_pure]
+      exact h1.1.of_eq rfl
+    | some s =>
+      simp only
+      bind_ok (encAttrValueW_ok c hc na s st1 h1.1 (fun h => h1.2 h rfl)) with st2 h2
+      simp only [Ok_pure]
+      exact h1.1.of_eq h2
+
+theorem encAttrsW_ok (c : WCfg) (hc : CfgOk c) (na : Option (List Attr)) :
+    ∀ (attrs : List Attr), attrs.all (fun a => anameOk a.name) = true → ∀ (st : WSt), StOk st →
+      Ok StOk (encAttrsW c na attrs st)
+  | [], _, st, hst => by simpa [encAttrsW] using hst
+  | a :: rest, h, st, hst => by
+    simp only [List.all_cons, Bool.and_eq_true] at h
+    simp only [encAttrsW]
+    bind_ok (encAttrW_ok c hc na a h.1 st hst) with st1 h1
+    exact encAttrsW_ok c hc na rest h.2 st1 h1
+
+/-! ### Tags, element start, text -/
+
+theorem name_cName_ne (name : Name) (h : nameOk name = true) : name.cName ≠ [] := by
+  cases name with
+  | token r => intro e; simp [nameOk, Name.cName] at h e; exact h e
+  | literal s => intro e; simp [nameOk, Name.cName] at h e; exact h e
+
+theorem tagLiteralW_ok (c : WCfg) (name : Bytes) (hn : name ≠ []) (mask : Nat) (st : WSt) (hst : StOk st) :
+    Ok StOk (tagLiteralW c name mask st) := by
+  unfold tagLiteralW
+  split
+  · simp
+  · simp only [Ok_pure]
+    exact (strtblAdd_ok st name hn hst).of_eq rfl
+
+theorem encTagW_ok (c : WCfg) (name : Name) (hn : nameOk name = true) (hasContent hasAttrs : Bool) (st : WSt)
+    (hst : StOk st) : Ok StOk (encTagW c name hasContent hasAttrs st) := by
+  unfold encTagW
+  extract_lets found st1 token page token'
+  have hst1 : StOk st1 := hst.of_eq rfl
+  split
+  · exact tagLiteralW_ok c _ (name_cName_ne name hn) _ _ hst1
+  · simp only [Ok_pure]
+    exact hst1.of_eq (by simp)
+
+theorem encElementStartW_ok (c : WCfg) (hc : CfgOk c) (na : Option (List Attr)) (name : Name)
+    (hn : nameOk name = true) (attrs : List Attr) (ha : attrs.all (fun a => anameOk a.name) = true)
+    (hasContent : Bool) (st : WSt) (hst : StOk st) :
+    Ok StOk (encElementStartW c na name attrs hasContent st) := by
+  unfold encElementStartW
+  simp only
+  bind_ok (encTagW_ok c name hn hasContent _ st hst) with st1 h1
+  bind_ok (encAttrsW_ok c hc na attrs ha st1 h1) with st2 h2
+  simp only [Ok_pure]
+  split
+  · exact h2.of_eq rfl
+  · exact h2
+
+theorem aliasWrite_ok (st : WSt) (k : Nat) (s : Bytes) (h : StOk st) : StOk (st.aliasWrite k s) :=
+  h.of_eq (aliasWrite_strtbl st k s h)
+
+theorem encTextW_ok (c : WCfg) (parent : Option Name) (s : Bytes) (st : WSt) (hst : StOk st) :
+    Ok StOk (encTextW c parent s st) := by
+  unfold encTextW
+  extract_lets k st1 strip s' st2 fix s'' st3
+  have hst1 : StOk st1 := hst.of_eq rfl
+  have hst2 : StOk st2 := by
+    unfold st2
+    split
+    · exact aliasWrite_ok _ _ _ hst1
+    · exact hst1
+  have hst3 : StOk st3 := by
+    unfold st3
+    split
+    · exact aliasWrite_ok _ _ _ hst2
+    · exact hst2
+  split
+  · simp only [Ok_pure]; exact hst1.of_eq rfl
+  · split
+    · simpa using hst1
+    · split
+      · split
+        · simp
+        · simp only [Ok_pure]
+          exact hst3.of_eq rfl
+      · exact (encContentValueW_ok c parent _ _ hst2).mono (fun st' e => hst2.of_eq e)
+
+/-! ### Documents -/
+
+theorem keepRefs_ok : ∀ (rs : List Ref) (st : WSt) (one : List Ref), StOk st → StOk (keepRefs rs st one).1
+  | [], st, one, h => h
+  | r :: rs, st, one, h => by
+    unfold keepRefs
+    split
+    · rename_i hc
+      simp only [Bool.and_eq_true, decide_eq_true_eq] at hc
+      have hne : r.str ≠ [] := by intro e; rw [e] at hc; simp at hc
+      exact keepRefs_ok rs _ one (strtblAdd_ok st r.str hne h)
+    · exact keepRefs_ok rs st _ h
+
+theorem docStartW_ok (c : WCfg) (r : Node) : StOk (docStartW c r) := by
+  unfold docStartW
+  split
+  · unfold strtblInitialize checkReferences
+    simp only
+    exact keepRefs_ok _ _ _ (keepRefs_ok _ _ _ stOk_init)
+  · exact stOk_init
+
+theorem cfgOk_derive (c : WCfg) (h : langNames c.lang = true) : CfgOk (deriveCfg c) := by
+  unfold deriveCfg
+  split
+  · exact ⟨h, fun _ => rfl⟩
+  · rename_i hn
+    refine ⟨h, fun h1901 => ?_⟩
+    simp [h1901] at hn
+
+theorem cfgOk_nested (c : WCfg) (l : Lang) (h : langNames l = true) : CfgOk (nestedCfg c l) :=
+  cfgOk_derive _ h
+
+mutual
+/-- `parse_node` on a well-named node: success with a sound string table, or a library error code. -/
+theorem encNodeG_ok : ∀ (n : Node) (c : WCfg), CfgOk c → ∀ (parent : Option Name) (encEnd : Bool),
+    nodeOk n = true → ∀ (st : WSt), StOk st → Ok StOk (encNodeG c parent encEnd n st)
+  | .elt name attrs kids, c, hc, parent, encEnd, hn, st, hst => by
+    simp only [nodeOk, Bool.and_eq_true] at hn
+    simp only [encNodeG]
+    bind_ok (encElementStartW_ok c hc (some attrs) name hn.1.1 attrs hn.1.2 _ st hst) with st1 h1
+    bind_ok (encNodesW_ok kids c hc (some name) hn.2 st1 h1) with st2 h2
+    simp only [Ok_pure]
+    split
+    · exact h2.of_eq rfl
+    · exact h2.of_eq rfl
+  | .text s, c, hc, parent, encEnd, hn, st, hst => by
+    simp only [encNodeG]
+    bind_ok (encTextW_ok c parent s st hst) with st1 h1
+    simp only [Ok_pure]
+    exact h1.of_eq rfl
+  | .cdata kids, c, hc, parent, encEnd, hn, st, hst => by
+    simp only [nodeOk] at hn
+    simp only [encNodeG]
+    split
+    · simp
+    · bind_ok (encNodesW_ok kids c hc none hn { st with inCdata := true, cdata := some [] } (hst.of_eq rfl)) with st1 h1
+      split
+      · simp
+      · simp only [Ok_pure]
+        split
+        · exact h1.of_eq rfl
+        · exact h1.of_eq rfl
+  | .tree lang cs root, c, hc, parent, encEnd, hn, st, hst => by
+    cases lang with
+    | none => unfold encNodeG; simp
+    | some l =>
+      cases root with
+      | none => unfold nodeOk at hn; simp at hn
+      | some r =>
+        unfold nodeOk at hn
+        simp only [Bool.and_eq_true] at hn
+        unfold encNodeG
+        simp only
+        bind_ok (encNodeG_ok r (nestedCfg c l) (cfgOk_nested c l hn.1) none true hn.2 _ (docStartW_ok _ r)) with st' _
+        simp only [Ok_pure]
+        exact hst.of_eq rfl
+
+theorem encNodesW_ok : ∀ (l : List Node) (c : WCfg), CfgOk c → ∀ (parent : Option Name),
+    nodesOk l = true → ∀ (st : WSt), StOk st → Ok StOk (encNodesW c parent l st)
+  | [], c, hc, parent, hl, st, hst => by simpa [encNodesW] using hst
+  | n :: rest, c, hc, parent, hl, st, hst => by
+    simp only [nodesOk, Bool.and_eq_true] at hl
+    simp only [encNodesW]
+    bind_ok (encNodeG_ok n c hc parent true hl.1 st hst) with st1 h1
+    exact encNodesW_ok rest c hc parent hl.2 st1 h1
+end
+
+/-- A tree as `wbxml_tree_to_wbxml` needs it: when it has a language, the language's rows have
+    non-empty names, there is a root, and the root is well named (same predicate as for an
+    embedded document). -/
+def treeOk (t : Tree) : Bool := nodeOk (.tree t.lang t.origCharset t.root)
+
+/-- **`wbxml_tree_to_wbxml` is total on such trees**: WBXML bytes, or a non-zero error code; never a
+    NULL dereference, a pointer past a terminator, or a loop that does not end. -/
+theorem treeToWbxml_ok (cfg : X2WCfg) (t : Tree) (ht : treeOk t = true) : Safe (treeToWbxml cfg t) := by
+  unfold treeToWbxml
+  cases hl : t.lang with
+  | none => simp [Safe]
+  | some lang =>
+    simp only [treeOk, hl] at ht
+    cases hr : t.root with
+    | none => rw [hr] at ht; unfold nodeOk at ht; simp at ht
+    | some r =>
+      rw [hr] at ht
+      unfold nodeOk at ht
+      simp only [Bool.and_eq_true] at ht
+      simp only [encodeDocW, encNodeW]
+      refine Ok.bind (encNodeG_ok r _ (cfgOk_derive _ ht.1) none true ht.2 _ (docStartW_ok _ r)) ?_
+      intro st _
+      simp
 
 end Wbxml.Lemmas.X2W
